@@ -245,7 +245,7 @@ Proof.
     rewrite E. constructor; unfold obs_of_run, contacted; cbn; try reflexivity; try (intros; contradiction); try discriminate.
     + intros pre s post Hx. destruct pre; discriminate.
     + intros _. auto.
-  - pose proof (run_g_post i Hnd Hov) as P. destruct P as [Pst Prt Pfl Pab Pok Perr Pno].
+  - pose proof (run_g_post i Hnd Hov) as P. destruct P as [Pst Prt Pat Pfl Pab Pok Perr Pno].
     assert (Hstarted : forall x, In x (flat_map st_started (r_steps (run_g i))) -> In x (sv_of i)).
     { intros x Hx. apply in_flat_map in Hx. destruct Hx as (s & Hs & Hx). rewrite Forall_forall in Pst.
       destruct (Pst s Hs) as (_ & _ & Hinc). apply Hinc. exact Hx. }
@@ -319,7 +319,7 @@ Proof.
   intros Hnd E. destruct (oversize i) eqn:Hov.
   - exfalso. pose proof (sp_over _ _ (model_meets_spec i Hnd)) as H. pose proof (sp_ok _ _ (model_meets_spec i Hnd) l n E) as H2.
     destruct H2 as [H2 _]. congruence.
-  - destruct (run_g_post i Hnd Hov) as [Pst _ _ _ Pok _ _]. destruct (Pok l n E) as (A & B & C).
+  - destruct (run_g_post i Hnd Hov) as [Pst _ _ _ _ Pok _ _]. destruct (Pok l n E) as (A & B & C).
     split; [exact A|]. split; [exact B|]. split; [apply loc_ok_iff; rewrite C; apply loc_ok_last200|].
     intros s Hs. rewrite Forall_forall in Pst. apply (Pst s Hs).
 Qed.
@@ -329,7 +329,7 @@ Lemma put_err_reports_count i l n : NoDup (g_order i) -> r_res (run_g i) = Insuf
   Exhausted i (r_steps (run_g i)) /\ n_accepting i < g_want i.
 Proof.
   intros Hnd E. pose proof (sp_err _ _ (model_meets_spec i Hnd) l n E) as (Hov & A & B & _ & _ & F & G).
-  destruct (run_g_post i Hnd Hov) as [_ _ _ _ _ Perr _]. destruct (Perr l n E) as (_ & _ & _ & D & _).
+  destruct (run_g_post i Hnd Hov) as [_ _ _ _ _ _ Perr _]. destruct (Perr l n E) as (_ & _ & _ & D & _).
   auto.
 Qed.
 
@@ -339,7 +339,7 @@ Proof.
   intros Hnd Hov Hacc. destruct (r_res (run_g i)) as [l n|l n|] eqn:E.
   - eauto.
   - pose proof (put_err_reports_count i l n Hnd E). lia.
-  - exfalso. destruct (run_g_post i Hnd Hov) as [_ _ _ _ _ _ Pno]. contradiction.
+  - exfalso. destruct (run_g_post i Hnd Hov) as [_ _ _ _ _ _ _ Pno]. contradiction.
 Qed.
 
 (* the stronger form proved in the design prototype: enough replicas offered in the first round *)
@@ -436,4 +436,32 @@ Proof.
   exists (gin_of example_in). split.
   - cbn. repeat constructor; cbn; intuition discriminate.
   - vm_compute. repeat split; auto.
+Qed.
+
+(* the round recorded in a step is the attempt number of its service: the number of answers the service had
+   given before that step *)
+Lemma att_ok_iff_gen todo : forall seen,
+  att_ok_b seen todo = true <->
+  (forall pre s post, todo = pre ++ s :: post -> st_round s = List.length (hist (st_done s) (seen ++ pre))).
+Proof.
+  induction todo as [|t todo IH]; intros seen; cbn [att_ok_b].
+  - split; [|reflexivity]. intros _ pre s post E. destruct pre; discriminate.
+  - rewrite andb_true_iff, Nat.eqb_eq, IH. split.
+    + intros [A B] pre s post E. destruct pre as [|p pre]; cbn [app] in E; injection E as <- ->.
+      * rewrite app_nil_r. exact A.
+      * specialize (B pre s post eq_refl). rewrite <- app_assoc in B. exact B.
+    + intros Hall. split.
+      * specialize (Hall [] t todo eq_refl). rewrite app_nil_r in Hall. exact Hall.
+      * intros pre s post ->. rewrite <- app_assoc. apply (Hall (t :: pre) s post eq_refl).
+Qed.
+
+Lemma round_is_attempt i : NoDup (g_order i) ->
+  forall pre s post, r_steps (run_g i) = pre ++ s :: post -> st_round s = List.length (hist (st_done s) pre).
+Proof.
+  intros Hnd pre s post E. destruct (oversize i) eqn:Hov.
+  - exfalso. assert (E2 : run_g i = {| r_res := Oversize; r_steps := []; r_abandoned := [] |}).
+    { unfold oversize in Hov. unfold run_g, put. destruct (g_entry i); try discriminate. rewrite Hov. reflexivity. }
+    rewrite E2 in E. destruct pre; discriminate.
+  - pose proof (po_att _ _ _ _ _ (run_g_post i Hnd Hov)) as A.
+    apply (proj1 (att_ok_iff_gen _ [])) with (pre := pre) (s := s) (post := post) in A; [exact A|exact E].
 Qed.
